@@ -122,10 +122,10 @@ pub fn build(r: &mut Rng, kind: ConnKind, client: Endpoint, server: Endpoint, o:
         ConnKind::Http2 | ConnKind::Http2Hostile => {
             let hostile = if kind == ConnKind::Http2Hostile { *r.pick(&[http2::Hostile::SizeZero, http2::Hostile::SizeZeroThenBogus, http2::Hostile::SizeZeroThenBogus, http2::Hostile::PolluteThenBogus, http2::Hostile::SizeHuge, http2::Hostile::BogusRef, http2::Hostile::Polluter]) } else { http2::Hostile::None };
             let self_ref = kind == ConnKind::Http2 && r.chance(2, 3);
-            let (rq, _) = http2::connection_start(r, &http2::Opts { request: true, hostile, fancy_headers: false, odd_order: false, self_ref });
+            let (rq, _) = http2::connection_start(r, &http2::Opts { request: true, hostile, fancy_headers: false, odd_order: false, self_ref, continuation: false });
             let hostile_s = if kind == ConnKind::Http2Hostile && r.chance(1, 2) { *r.pick(&[http2::Hostile::SizeZero, http2::Hostile::SizeZeroThenBogus]) } else { http2::Hostile::None };
             let self_ref_s = kind == ConnKind::Http2 && r.chance(1, 2);
-            let (rs, _) = http2::connection_start(r, &http2::Opts { request: false, hostile: hostile_s, fancy_headers: false, odd_order: false, self_ref: self_ref_s });
+            let (rs, _) = http2::connection_start(r, &http2::Opts { request: false, hostile: hostile_s, fancy_headers: false, odd_order: false, self_ref: self_ref_s, continuation: false });
             (rq, rs)
         }
         ConnKind::Garbage => {
